@@ -161,12 +161,17 @@ def c11(tier):
 
 def c14(tier):
     mc = [("WireMC.tla", "WireMC_%s.cfg" % tier)]
+    extra = None
+    if tier == "thorough":
+        # the value laws behind "unique shortest form / decodes to itself" for ALL 2^62 values
+        extra = {"symbolic": [vlib.apalache_laws("WireInt.tla", "VarintLaws", "C14")]}
     return codec_check(
         "C14", tier, ["enc"], mc,
         ["values: all varint boundaries + seeded random; frame payload lengths 0..140 + boundaries "
          "(0..4096 all in thorough); all 64 subsets of the settings builder; header maps by class + random",
-         "the exhaustive sweep below 2^30 is not run: boundary + random samples are judged instead"],
-        _case_basic, _corrupt_size)
+         "the exhaustive sweep below 2^30 is not run: boundary + random samples of the code are judged instead; "
+         "thorough: Apalache proves the reference's varint laws for all 2^62 values (spec-level, not code-level)"],
+        _case_basic, _corrupt_size, extra_cov=extra)
 
 
 def c17(tier):
@@ -607,9 +612,15 @@ def c13(tier):
 
 def c17(tier):
     combine.t0 = time.time()
+    extra = None
+    if tier == "thorough":
+        # stream-id classification / quarter-id arithmetic / datagram header size for ALL 62-bit ids
+        extra = {"symbolic": [vlib.apalache_laws("WireInt.tla", "IdLaws", "C17"),
+                              vlib.apalache_laws("WireIntDg.tla", "Laws", "C17dg")]}
     a = codec_check("C17", tier, ["ids"], [("WireMC.tla", "WireMC_%s.cfg" % tier)],
-                    ["ids: four low-bit classes x boundary magnitudes, 0..2047, seeded random; quarter ids via the datagram reader"],
-                    _case_basic, _corrupt_size, defer=True)
+                    ["ids: four low-bit classes x boundary magnitudes, 0..2047, seeded random; quarter ids via the datagram reader; "
+                     "thorough: Apalache proves the reference's id laws for all 62-bit values (spec-level)"],
+                    _case_basic, _corrupt_size, defer=True, extra_cov=extra)
     b = _driver_rules("C17", tier, lambda s: any(nm.startswith("wt_") for nm in _names(s)),
                       ["driver-level: WebTransport uni/bidi streams naming the live session, a valid unused session, a huge one and "
                        "non-session stream ids, alone and interleaved with live traffic; foreign datagrams are covered by C03"])
@@ -672,6 +683,16 @@ def _case_c05(scn, hist):
 
 def c05(tier):
     import scen
+    # the mechanism model: a frame read owned by the struct ("persist", the code since b91be3c) or by a
+    # task is never torn, for every segmentation and every placement of other loop events; a read owned
+    # by the select! branch ("drop", the code before the fix: finding D6) is - both facts are asserted
+    mc = []
+    for cfg, expect_ok in (("SelectLoop_persist.cfg", True), ("SelectLoop_task.cfg", True), ("SelectLoop_drop.cfg", False)):
+        r = vlib.tlc_mc("SelectLoopMC.tla", cfg, "C05-" + cfg, workers=2)
+        if r["ok"] != expect_ok:
+            raise vlib.ToolError("SelectLoop.tla %s: expected %s" % (cfg, "no error" if expect_ok else "a tearing counterexample"))
+        mc.append({"spec": "SelectLoopMC.tla", "cfg": cfg, "ok": r["ok"], "expected_ok": expect_ok,
+                   "generated": r["generated"], "distinct": r["distinct"], "wall_s": r["wall_s"]})
     return e2e_check(
         "C05", tier, scen.c05(tier, vlib.seed()), "C05Trace.tla", _corrupt_c05,
         ["valid exchanges whose SETTINGS / GREASE / request or response HEADERS / session-stream GREASE / close capsule are cut "
@@ -680,7 +701,7 @@ def c05(tier):
          "both roles, multi-thread runtime (plus current-thread in thorough); each paired with its unsegmented twin",
          "timing: whether a tear manifests depends on the scheduler; a scenario that passes is not proof of absence "
          "(D6, the tear of frames read inside the worker's select loop, was found here and is fixed by b91be3c)"],
-        mc_cfgs=[("WireMC.tla", "WireMC_quick.cfg")], par=4, threads=4, case_of=_case_c05,
+        mc_cfgs=[("WireMC.tla", "WireMC_quick.cfg")], mc_results=mc, par=4, threads=4, case_of=_case_c05,
         runs=2 if tier == "thorough" else 1)
 
 
